@@ -519,7 +519,21 @@ class ClauseElement(
         d = self.__dict__.copy()
         d.pop("_is_clone_of", None)
         d.pop("_generate_cache_key", None)
+        self._remove_memoized_comparator(d)
         return d
+
+    @staticmethod
+    def _remove_memoized_comparator(d):
+        # a memoized comparator refers back to its element; pickle would
+        # re-create it from the element *before* the element's state
+        # (its .type) has been restored, leaving a comparator of the right
+        # class bound to NullType.  It is rebuilt on demand.
+        if "comparator" in d:
+            del d["comparator"]
+            if "_memoized_keys" in d:
+                d["_memoized_keys"] = d["_memoized_keys"].difference(
+                    ["comparator"]
+                )
 
     def _execute_on_connection(
         self,
@@ -2283,6 +2297,7 @@ class BindParameter(roles.InElementRole, KeyedColumnElement[_T]):
         """execute a deferred value for serialization purposes."""
 
         d = self.__dict__.copy()
+        self._remove_memoized_comparator(d)
         v = self.value
         if self.callable:
             v = self.callable()
